@@ -270,7 +270,7 @@ TASKS = {"degrees": task_degrees}
 
 def plan(tier, seed):
     t = []
-    reps = 12 if tier == "quick" else 3000
+    reps = 80 if tier == "quick" else 1500
     degs = list(range(0, 41)) if tier == "quick" else list(range(0, 81))
     nsh = 14
     for s in range(nsh):
